@@ -74,7 +74,7 @@ def run_chunk(job, tier, a, b, timeout_s, keep_stderr=None):
                 last_begin = int(line.split()[1])
             elif line.startswith("@@RESULT "):
                 try:
-                    r = json.loads(line[9:]); r["_job"] = job.name; r["_variant"] = job.variant; results.append(r); done.add(r["seed"])
+                    r = json.loads(line[9:]); r["_job"] = job.name; r["_variant"] = job.variant; r["_proc_first_seed"] = cur; r["_focus"] = job.focus; r["_args"] = job.args; r["_env"] = job.env; r["_tier"] = tier; r["_dual"] = job.dual; results.append(r); done.add(r["seed"])
                 except Exception:
                     pass
         if rc in (0, 1) and (last_begin is None or last_begin in done):
@@ -178,6 +178,8 @@ def replay_file(path, quiet=False):
     if not os.path.exists(simrun_path(variant)):
         if not build([variant]):
             return False, "build failed"
+    if doc.get("history"):
+        return replay_history(doc, quiet)
     tmp = os.path.join(os.environ.get("TMPDIR", SCRATCH_BASE), "replay_%d_%d.plan" % (os.getpid(), threading.get_ident()))
     open(tmp, "w").write("\n".join(doc["plan"]) + "\n")
     env = dict(os.environ); env.update(doc.get("env", {})); env.setdefault("TMPDIR", SCRATCH_BASE)
@@ -191,6 +193,27 @@ def replay_file(path, quiet=False):
     if doc.get("crash_kind"):
         pass
     return replay_rest(doc, p, quiet)
+
+
+def replay_history(doc, quiet=False):
+    """A violation that needs the state left in the process by earlier runs (a static or thread-local variable of the code
+    under test): the fresh process runs the same seeds in the same order; the violation must appear at the same seed."""
+    h = doc["history"]
+    cmd = [simrun_path(doc["variant"]), "--workload", doc["workload"], "--tier", h.get("tier", "quick"), "--seeds", "%d:%d" % (h["first_seed"], doc["seed"]), "--no-minimize", "--dual", str(h.get("dual", 0.0))] + list(h.get("args", []))
+    if h.get("focus"):
+        cmd += ["--focus", h["focus"]]
+    env = dict(os.environ); env.update(h.get("env", {})); env.setdefault("TMPDIR", SCRATCH_BASE)
+    p = subprocess.run(cmd, stdout=subprocess.PIPE, stderr=subprocess.PIPE, text=True, errors="replace", timeout=3600, env=env)
+    for line in p.stdout.splitlines():
+        if line.startswith("@@RESULT "):
+            r = json.loads(line[9:])
+            if r["seed"] != doc["seed"]: continue
+            for v in r["violations"]:
+                if v["prop"] == doc["property"] and v["clause"] == doc["clause"]:
+                    if not quiet: log("replay: REPRODUCED %s %s at seed %d after seeds %d..%d in the same process: %s" % (v["prop"], v["clause"], doc["seed"], h["first_seed"], doc["seed"] - 1, v["detail"]))
+                    return True, v["detail"]
+    if not quiet: log("replay: not reproduced with the process history %d..%d" % (h["first_seed"], doc["seed"]))
+    return False, "not reproduced with process history"
 
 
 def replay_stage(doc, variant, tmp, env, quiet):
@@ -531,8 +554,18 @@ def run_property(prop, spec, tier, seed0):
             log("violation class %s: %s" % (clause, v["detail"]))
             log("VIOLATION property=%s replay=%s" % (prop, path)); confirmed += 1; exit_code = 1
         else:
-            log("harness failure: violation %s/%s of seed %d did not replay in a fresh process (%s)" % (prop, clause, r["seed"], msg))
-            exit_code = max(exit_code, 2) if exit_code != 1 else 1
+            # the plan alone does not reproduce it: does it need the state earlier runs left in the worker process?
+            ok2 = False
+            if r.get("_proc_first_seed") is not None and r["_proc_first_seed"] < r["seed"]:
+                path = write_replay(prop, r, v, r.get("plan", ""), {"history": {"first_seed": r["_proc_first_seed"], "focus": r.get("_focus", ""), "args": [a for a in r.get("_args", [])], "env": r.get("_env", {}), "tier": r.get("_tier", tier), "dual": r.get("_dual", 0.0)},
+                                    "note": "the violation appears only after the runs of the earlier seeds in the same process: state kept between runs by the code under test"})
+                ok2, msg2 = replay_file(path, quiet=True)
+            if ok2:
+                log("violation class %s: %s [reproduces only after seeds %d..%d in the same process]" % (clause, v["detail"], r["_proc_first_seed"], r["seed"] - 1))
+                log("VIOLATION property=%s replay=%s" % (prop, path)); confirmed += 1; exit_code = 1
+            else:
+                log("harness failure: violation %s/%s of seed %d did not replay in a fresh process (%s)" % (prop, clause, r["seed"], msg))
+                exit_code = max(exit_code, 2) if exit_code != 1 else 1
     # crashes owned by this property (sanitizer reports for C10, deadlock for C15, ...)
     crash_classes = {}
     for c in own_crashes:
